@@ -150,7 +150,11 @@ class AsyncSocket(base_socket.BaseSocket):
             return self.server._bad_request()
         ws = self.server._async['websocket'](
             self._websocket_handler, self.server)
-        return await ws(environ)
+        try:
+            return await ws(environ)
+        finally:
+            # the upgrade is over, regardless of how it ended
+            self.upgrading = False
 
     async def _websocket_handler(self, ws):
         """Engine.IO handler for websocket transport."""
